@@ -369,6 +369,18 @@ class Summaries:
         def _(ctx):
             return to_iter(ctx, ctx.args[0]).with_op(('map', ctx.args[1]), ctx.ret_ty)
 
+        @reg('std::iter::Iterator::chain')
+        def _(ctx):
+            a = to_iter(ctx, ctx.args[0])
+            b = to_iter(ctx, ctx.args[1])
+            return IterV('chain', ctx.ret_ty, (a, b), iid=next(_c))
+
+        @reg('std::iter::Iterator::zip')
+        def _(ctx):
+            a = to_iter(ctx, ctx.args[0])
+            b = to_iter(ctx, ctx.args[1])
+            return IterV('zip', ctx.ret_ty, (a, b), iid=next(_c))
+
         @reg('std::iter::Iterator::flat_map')
         def _(ctx):
             return to_iter(ctx, ctx.args[0]).with_op(('flat_map', ctx.args[1]), ctx.ret_ty)
@@ -421,6 +433,12 @@ class Summaries:
             out = []
             if it.kind == 'range':
                 lo, hi, incl = it.args
+                if isinstance(lo, NumV) and hi is None:
+                    # `lo..`: any value from lo up
+                    v = eng.fresh_num(st, lo.ty, None, None, name='it%d' % next(_c))
+                    if eng.assume_le(st, lo, v):
+                        return apply_ops(ctx, it, [(st, v)])
+                    return [(st, None)]
                 if not (isinstance(lo, NumV) and isinstance(hi, NumV)):
                     return [(st, eng.mk_default(st, 'u32')), (st.fork(), None)]
                 # exhausted branch always possible unless provably non-empty at first
@@ -478,7 +496,15 @@ class Summaries:
                             if ok0:
                                 out.append((s_none, None))
                             return apply_ops(ctx, it, out)
-                    out.append((st, elem_ref(ctx, st, c, path, None, None, mode)))
+                    er = elem_ref(ctx, st, c, path, None, None, mode)
+                    # remember the element this iterator produced on this path (rules about "the loop's element")
+                    ev_ = er
+                    hops_ = 0
+                    while isinstance(ev_, RefV) and hops_ < 3:
+                        ev_ = eng.read(st, ev_.path)
+                        hops_ += 1
+                    st.vn[('iterelem', it.iid)] = ev_
+                    out.append((st, er))
                     out.append((s_none, None))
                     return apply_ops(ctx, it, out)
             if it.kind == 'chars':
@@ -509,6 +535,26 @@ class Summaries:
                 if not (first and nonempty):
                     out.append((s_none, None))
                 return apply_ops(ctx, it, out)
+            if it.kind == 'chain':
+                res = []
+                for sub in it.args:
+                    if isinstance(sub, IterV):
+                        for (s2, y) in iter_elem(ctx, st.fork(), sub):
+                            if y is not None:
+                                res.append((s2, y))
+                res.append((st, None))
+                return apply_ops(ctx, it, res)
+            if it.kind == 'zip':
+                res = []
+                a, b = it.args
+                for (s2, x) in (iter_elem(ctx, st.fork(), a) if isinstance(a, IterV) else []):
+                    if x is None:
+                        continue
+                    for (s3, y) in (iter_elem(ctx, s2, b) if isinstance(b, IterV) else []):
+                        if y is not None:
+                            res.append((s3, StructV('(A, B)', {'0': x, '1': y})))
+                res.append((st, None))
+                return apply_ops(ctx, it, res)
             if it.kind == 'known':
                 items = it.args[0]
                 pos = it.args[1]
@@ -664,6 +710,30 @@ class Summaries:
                     src = [CharV(ch) for ch in sv.known]
             elif it.kind == 'known' and it.args[1] is not None:
                 src = list(it.args[0][it.args[1]:])
+            elif it.kind == 'chain':
+                ea = exact_items(ctx, st, it.args[0], limit, maxpaths)
+                if ea is not None and len(ea) == 1 and ea[0][0] is st:
+                    eb = exact_items(ctx, st, it.args[1], limit, maxpaths)
+                    if eb is not None and len(eb) == 1 and eb[0][0] is st:
+                        src = list(ea[0][1]) + list(eb[0][1])
+            elif it.kind == 'zip':
+                a, b = it.args
+                ea = exact_items(ctx, st, a, limit, maxpaths)
+                eb = exact_items(ctx, st, b, limit, maxpaths)
+
+                def from_start(x, n):
+                    # an unbounded `start..` zipped with n elements
+                    if isinstance(x, IterV) and x.kind == 'range' and not x.ops and isinstance(x.args[0], NumV) and x.args[0].sym is None and x.args[1] is None:
+                        return [NumV(None, x.args[0].k + i, x.args[0].ty) for i in range(n)]
+                    return None
+                la = ea[0][1] if ea is not None and len(ea) == 1 and ea[0][0] is st else None
+                lb = eb[0][1] if eb is not None and len(eb) == 1 and eb[0][0] is st else None
+                if la is None and lb is not None:
+                    la = from_start(a, len(lb))
+                if lb is None and la is not None:
+                    lb = from_start(b, len(la))
+                if la is not None and lb is not None:
+                    src = [StructV('(A, B)', {'0': x, '1': y}) for x, y in zip(la, lb)]
             if src is None:
                 return None
             ops = list(it.ops)
@@ -929,7 +999,7 @@ class Summaries:
                 return out
             return closure_loop(ctx, it, f)
 
-        def closure_loop(ctx, it, f, elem_args=None):
+        def closure_loop(ctx, it, f, elem_args=None, on_elem=None):
             """`for_each`-like consumption of an iterator whose length is not known, treated like a
             loop cut at its head: forget what the closure may write (Screen paths from E3, captured
             mutable places), assume INV on it, run the closure once on an arbitrary element from
@@ -984,6 +1054,8 @@ class Summaries:
                     except Infeasible:
                         continue
                 for (s2, _r) in res:
+                    if on_elem is not None:
+                        on_elem(s2, x)
                     if w and eng.cfg.get('check_inv', True) and inv.S_ROOT in s2.store:
                         for (name, ok, facts) in inv.check_inv(eng, s2, only_written=w):
                             eng.obligation(s2, fr, ctx.bi, 'loopinv', '%s@back-edge' % name, span, ok, facts)
@@ -1072,9 +1144,21 @@ class Summaries:
                 if pos is None and not any(o[0] in ('skip', 'take', 'rev', 'filter') for o in it.ops):
                     first = True
             res = iter_elem(ctx, ctx.st, it, first=first)
+            res2 = []
             for (s, v) in res:
                 s.vn[('iterpos', it.iid)] = 'advanced'
-            return opt_result(ctx, res)
+                if v is not None and it.kind == 'coll':
+                    ev_ = v
+                    hops_ = 0
+                    while isinstance(ev_, RefV) and hops_ < 3:
+                        ev_ = eng.read(s, ev_.path)
+                        hops_ += 1
+                    s.vn[('iterelem', it.iid)] = ev_
+                    if isinstance(v, RefV) and not v.mut and hops_ == 1 and isinstance(ev_, (NumV, CharV)) and it.args[2] in ('ref', 'keys') and not it.ops:
+                        # a shared reference to a scalar element: every later read sees this same value
+                        v = mkref(s, ev_)
+                res2.append((s, v))
+            return opt_result(ctx, res2)
 
         def unrolled_next(ctx, it, pos):
             """exact positional iteration for constant sources (static initialisers only)"""
@@ -2202,7 +2286,7 @@ class Summaries:
             return RefV((root, ()))
 
         # ---------- collections -------------------------------------------
-        @regx(r'^std::collections::(HashMap::<K, V>|HashSet::<T>)::new$|^std::vec::Vec::<T>::new$|^std::collections::BTreeMap::<K, V>::new$')
+        @regx(r'^std::collections::(HashMap::<K, V>|HashSet::<T>)::(new|with_capacity)$|^std::vec::Vec::<T>::(new|with_capacity)$|^std::collections::BTreeMap::<K, V>::new$')
         def _(ctx):
             rty = ctx.ret_ty
             head, _a = split_generic(rty)
@@ -2450,7 +2534,14 @@ class Summaries:
                             kn.append((k, v))
                         known = tuple(kn)
                 elif ex is None:
-                    analyse_adaptors(ctx, ctx.st, sv)
+                    # element by element, as the loop `for (k, v) in iter { map.insert(k, v) }` would
+                    def put(s_, x_):
+                        if isinstance(x_, StructV) and '0' in x_.fields and '1' in x_.fields:
+                            c2_ = with_state(ctx, s_)
+                            p2_, cc_ = coll_at(c2_, ctx.args[0])
+                            log(c2_, 'map.insert', spath(p2_), x_.fields['0'], x_.fields['1'])
+                    closure_loop(ctx, sv, None, on_elem=put)
+                    path, c = coll_at(ctx, ctx.args[0])
             bump(ctx, path, c, known=known, length=None)
             return UNIT
 
@@ -2545,7 +2636,12 @@ class Summaries:
         def _(ctx):
             r, v = ctx.args
             path, c = coll_at(ctx, r, 'set')
-            log(ctx, 'set.remove', spath(path), deref(ctx, v))
+            vv = deref(ctx, v)
+            log(ctx, 'set.remove', spath(path), vv)
+            if c.known is not None and _is_const(vv) and all(_is_const(x) for x in c.known):
+                had = any(x.key() == vv.key() for x in c.known)
+                bump(ctx, path, c, known=tuple(x for x in c.known if x.key() != vv.key()), length=None)
+                return BoolV(had)
             bump(ctx, path, c, known=None, length=None)
             return BoolV(None, ('fact', ('setremove', next(_c))))
 
@@ -2930,7 +3026,11 @@ class Summaries:
                 if h != INF:
                     hi = 3 * h + 16
             v = eng.fresh_num(st, 'usize', 0, hi, name='max_utf8_len')
-            return EnumV(ctx.ret_ty, {0, 1}, {1: StructV('Some', {'0': v})})
+            # which bound this is: with room for U+FFFD replacements or not, and for how many input bytes
+            st.vn[('def', v.sym)] = ('max_utf8_len', 'without_replacement' if ctx.callee.endswith('_without_replacement') else 'with_replacement', n)
+            r_ = EnumV(ctx.ret_ty, {0, 1}, {1: StructV('Some', {'0': v})})
+            st.vn[('max_utf8_opt', r_.eid)] = n
+            return r_
 
         @regx(r'^encoding_rs::Decoder::decode_to_(string|str|utf8)(_without_replacement)?$')
         def _(ctx):
@@ -2956,7 +3056,7 @@ class Summaries:
             n = ctx.args[0]
             ok = isinstance(n, NumV) and eng.bounds(ctx.st, n)[1] <= 2**63 - 1
             ctx.oblige('precondition', 'String::with_capacity(cap <= isize::MAX)', ok, repr(n))
-            return StrV('', prov=('lit',))
+            return StrV('', prov=('with_capacity', n))
 
         @regx(r'^encoding_rs::')
         def _(ctx):
